@@ -24,7 +24,7 @@ META = {
 LEVEL = META['level']
 RULE = ('a case = one request frame of a recorded session paired with its reply; distinct by (session script, position); non-trivial = the session had depth >= 2 or mixed failing and succeeding requests')
 ASSUMPTIONS = ['after a reply with non-zero encapsulation status, or Unregister, nothing further is owed on that session']
-REQUIRED = ['handle:other-than-registered', 'sessions', 'requests', 'depth:1', 'depth:2', 'depth:8', 'depth:64', 'depth:400', 'kind:register', 'kind:list_services', 'kind:list_identity', 'kind:list_interfaces',
+REQUIRED = ['session:half-closed-after-burst', 'handle:other-than-registered', 'sessions', 'requests', 'depth:1', 'depth:2', 'depth:8', 'depth:64', 'depth:400', 'kind:register', 'kind:list_services', 'kind:list_identity', 'kind:list_interfaces',
             'kind:legacy', 'kind:read', 'kind:write', 'kind:cip-failing', 'kind:bundle', 'kind:attribute', 'end:unregister', 'end:unsupported-service', 'end:unroutable',
             'context:all-zero', 'context:embedded-nul', 'monitor:paired', 'server-blocked-in-send']
 TIMEOUT = {'quick': 300, 'thorough': 2400}
@@ -79,6 +79,8 @@ def gen_session(rng, depth_target, heavy=False):
             steps.append((kind, build, {'command': 0x6F, 'service': cip[0] | 0x80}))
     gen_session.counter = getattr(gen_session, 'counter', 0) + 1
     end = ['none', 'unsupported-service', 'unregister', 'unroutable', 'none'][gen_session.counter % 5]     # every ending occurs, deterministically
+    if depth_target < 64 and gen_session.counter % 3 == 2:
+        end = 'none'            # ... and 'none' also occurs at the small depths (these sessions are half-closed right after the burst)
     if end == 'unregister':
         steps.append(('end:unregister', lambda s, c: rc.enc_frame(0x66, b'', session=s, context=c), {'no_reply': True}))
     elif end == 'unsupported-service':
@@ -172,6 +174,14 @@ def run_session(ctx, sim, rng, depth):
                 ctx.count('server-blocked-in-send')
         if th.is_alive():
             ctx.count('writer-blocked-too')
+        elif depth < 64 and not any(k_.startswith('end:') for k_, _, _, _ in sent):
+            # the documented clean shutdown of a client: close the sending side right after the last request, then harvest the replies;
+            # the end-of-stream may reach the server together with the burst, and every complete request is still owed its reply
+            try:
+                sock.shutdown(socket.SHUT_WR)
+                ctx.count('session:half-closed-after-burst')
+            except OSError:
+                pass
         # now read everything
         got = []
         owed = sum(1 for _, _, _, e in sent if not e.get('no_reply'))
